@@ -4,6 +4,9 @@
 // compiled only under the build tag "verif").
 package path
 
+// Every function under contract in this package also serves the properties that depend on the whole package.
+//@ package-props C01 C03 C04 C05 C06 C19
+
 // ---- the index form of a path as a mathematical sequence -----------------
 // Path and PathElem messages are treated as immutable while indexed (no
 // function under contract writes a field of gpb.Path or gpb.PathElem).
